@@ -174,15 +174,15 @@ def e2_specs(tier):
 
 
 def publisher_scenarios(tier):
-  """the publisher programs are loop-free: every operation runs at most once, so K = number of operations + 2 covers every behaviour
+  """the publisher programs are loop-free: every operation runs at most once, so K = number of operations + 2 per thread + 2 covers every behaviour
   (the adequacy query confirms it); computed from the translated code, so a numbering scheme with more steps gets the bound it needs"""
   from vf.e2 import check, ir
   out = []
   for counts in ([(2, 2)] if tier == "quick" else [(2, 2), (3, 1), (1, 1, 1)]):
     kw = dict(counts=counts)
     _sc, sysm = check.build("publishers", kw)
-    nops = sum(1 for p in sysm.programs for n in p.nodes if isinstance(n, ir.Op))
-    out.append((kw, min(60, nops + 2)))
+    nops = sum(1 for p in sysm.programs for n in p.nodes if isinstance(n, ir.Op) and (p.tid, n.id) not in sysm.invisible)      # steps are taken at visible operations
+    out.append((kw, min(60, nops + 2 * len(sysm.programs) + 2)))      # + each thread's entry and exit step
   return out
 
 
